@@ -1982,6 +1982,135 @@ func udReg(o *udOut, r *u.Rng, scripted bool) {
 }
 
 
+// udRegOverlap: two connections with zero-length source connection IDs open at the same time on
+// ONE UTransport (they share the handler-map key). Either the second dial is refused up front, or
+// every connection that Dial returned keeps moving data until it is closed itself.
+func udRegOverlap(o *udOut, r *u.Rng, how int) {
+	name := parrotNames[r.Intn(4)] // a Chrome parrot
+	sp, err := specFor(name)
+	if err != nil {
+		return
+	}
+	sp.InitialPacketSpec.SrcConnIDLength = 0
+	k := "udial/reg/"
+	var hist []string
+	var steps []string
+	berr := inBubble(func() {
+		e, err := newSimEnv(simOpts{Spec: sp})
+		if err != nil {
+			return
+		}
+		defer e.Close()
+		sctx, scancel := context.WithCancel(context.Background())
+		defer scancel()
+		go sdServe(sctx, e)
+		var conns []*quic.Conn
+		step := func(op string) {
+			kind, c := quic.UdialHandlerKind(e.CliTr, nil)
+			owner := int64(0)
+			switch kind {
+			case 1:
+				for j, cc := range conns {
+					if cc == c {
+						owner = int64(j + 1)
+					}
+				}
+			case 2, 3:
+				kind = 2
+			}
+			steps = append(steps, u.App("GStep", op, u.List([]string{u.Pair("0", u.Z(int64(kind)), u.Z(owner))})))
+		}
+		echo := func(c *quic.Conn, id int) error {
+			ctx, cancel := context.WithTimeout(context.Background(), 10*time.Second)
+			defer cancel()
+			st, err := c.OpenStreamSync(ctx)
+			if err != nil {
+				return err
+			}
+			_ = st.SetDeadline(time.Now().Add(10 * time.Second))
+			msg := streamBytes(id, 3000)
+			if _, err := st.Write(msg); err != nil {
+				return err
+			}
+			st.Close()
+			got, err := io.ReadAll(st)
+			if err != nil {
+				return err
+			}
+			if !bytes.Equal(got, msg) {
+				return fmt.Errorf("echo differs")
+			}
+			return nil
+		}
+		ctx, cancel := context.WithTimeout(context.Background(), 20*time.Second)
+		defer cancel()
+		c1, err := e.Dial(ctx)
+		if err != nil || echo(c1, 1) != nil {
+			o.fail(k+"not-routed", fmt.Sprintf("dial#1 fails: %v", err), name)
+			return
+		}
+		hist = append(hist, "dial#1 ok, left open")
+		conns = append(conns, c1)
+		step(u.App("GDial", "1", "0", "true"))
+		c2, err := e.Dial(ctx)
+		conns = append(conns, c2)
+		if err != nil {
+			step(u.App("GDial", "2", "0", "false"))
+			hist = append(hist, "dial#2 refused: "+err.Error())
+			o.dist["reg overlap refused"]++
+			if e1 := echo(c1, 2); e1 != nil {
+				o.fail(k+"overlap", "the second dial was refused, yet the first connection no longer moves data: "+e1.Error(), name+": "+strings.Join(hist, "; "))
+			}
+			c1.CloseWithError(0, "")
+			time.Sleep(time.Millisecond)
+			step(u.App("GClose", "1", "0"))
+			// now the ID is free again: the same dial is accepted over the closed entry
+			c3, err := e.Dial(ctx)
+			conns = append(conns, c3)
+			ok3 := err == nil && echo(c3, 6) == nil
+			if !ok3 {
+				o.fail(k+"not-routed", fmt.Sprintf("after the open connection was closed, the next dial through the same UTransport fails (%v)", err), name+": "+strings.Join(hist, "; "))
+			}
+			step(u.App("GDial", "3", "0", u.B(ok3)))
+			if c3 != nil {
+				c3.CloseWithError(0, "")
+				time.Sleep(time.Millisecond)
+				step(u.App("GClose", "3", "0"))
+			}
+			return
+		}
+		step(u.App("GDial", "2", "0", "true"))
+		hist = append(hist, "dial#2 ok while connection 1 is open")
+		o.dist["reg overlap accepted"]++
+		if e2 := echo(c2, 3); e2 != nil {
+			o.fail(k+"overlap", "dial#2 returned a connection that moves no data: "+e2.Error(), name+": "+strings.Join(hist, "; "))
+		}
+		if e1 := echo(c1, 4); e1 != nil {
+			o.fail(k+"overlap", "after dial#2 succeeded on the same UTransport, connection 1 (still open) no longer moves data: "+e1.Error(), name+": "+strings.Join(hist, "; "))
+		}
+		switch how {
+		case 0:
+			c1.CloseWithError(0, "")
+			hist = append(hist, "connection 1 closed")
+		default:
+			quic.UdialDestroy(c1, fmt.Errorf("verif: destroyed"))
+			hist = append(hist, "connection 1 destroyed")
+		}
+		time.Sleep(5 * time.Millisecond)
+		if e2 := echo(c2, 5); e2 != nil {
+			o.fail(k+"overlap", "after connection 1 was closed, connection 2 (open, dialled later through the same UTransport) no longer moves data: "+e2.Error(), name+": "+strings.Join(hist, "; "))
+		}
+		c2.CloseWithError(0, "")
+	})
+	if berr != nil {
+		o.fail(k+"leak-or-panic", berr.Error(), name+": "+strings.Join(hist, "; "))
+		return
+	}
+	o.dist["reg"]++
+	fmt.Fprintf(o.w, "CASE 1 %s\n", u.App("Reg", u.List(steps)))
+}
+
+
 // udKeyPhases: the spec-driven crypto setup answers every sealer / opener getter with the same
 // class (keys / not yet available / dropped) as the plain one, whichever keys are installed.
 func udKeyPhases(o *udOut) {
@@ -2105,6 +2234,9 @@ func runUDial(w *bufio.Writer, seed uint64, n int, args []string) {
 			udNilSpec(o, rr)
 		case i%8 == 3 && (i/8)%2 == 0 && only == "":
 			udReg(o, rr, i == 3)
+			if i == 3 || i == 19 {
+				udRegOverlap(o, rr, i/16)
+			}
 		case i%4 == 1 && only == "":
 			udRetx(o, rr, i == 1)
 			o.dist["retx"]++
